@@ -38,6 +38,7 @@ pub struct Profile {
     pub p_math_exprs: f64,
     pub p_where_col_cmp: f64,
     pub p_where_fn: f64,
+    pub p_cond_agg: f64,
     pub p_inner_where: f64,
     pub p_join_of_subqueries: f64,
     pub p_on_or: f64,
@@ -79,6 +80,7 @@ impl Profile {
             p_math_exprs: 0.06,
             p_where_col_cmp: 0.05,
             p_where_fn: 0.05,
+            p_cond_agg: 0.04,
             p_inner_where: 0.5,
             p_join_of_subqueries: 0.0,
             p_on_or: 0.0,
@@ -93,10 +95,10 @@ impl Profile {
         match prop {
             "C03" => Profile { p_on_or: 0.04, p_cross: 0.04, p_outer_kinds: 0.05, p_multi_dp: 0.06, p_shared_cte: 0.05, p_nested_group: 0.03, ..base },
             "C01" => Profile { p_nested_by_id: 0.04, p_on_or: 0.06, p_cross: 0.06, p_outer_kinds: 0.06, p_shared_cte: 0.03, p_nested_group: 0.05, ..base },
-            "C09" => Profile { p_where_fn: 0.2, p_where_col_cmp: 0.2, p_math_exprs: 0.2, p_count_of_unique: 0.6, p_fn_exprs: 0.25, p_modulo: 0.12, p_alias_shadow: 0.4, public_keys_only: true, benign_data: true, p_distinct: 0.12, p_row_privacy: 0.15, p_grouped: 0.65, ..base },
-            "C04" => Profile { p_unsupported_agg: 0.08, p_key_via_agg: 0.25, p_nested_group: 0.08, p_nested: 0.0, need_private_key: true, p_grouped: 1.0, p_outer: 0.0, p_distinct: 0.05, ..base },
+            "C09" => Profile { p_cond_agg: 0.15, p_where_fn: 0.2, p_where_col_cmp: 0.2, p_math_exprs: 0.2, p_count_of_unique: 0.6, p_fn_exprs: 0.25, p_modulo: 0.12, p_alias_shadow: 0.4, public_keys_only: true, benign_data: true, p_distinct: 0.12, p_row_privacy: 0.15, p_grouped: 0.65, ..base },
+            "C04" => Profile { p_where_fn: 0.2, p_unsupported_agg: 0.08, p_key_via_agg: 0.25, p_nested_group: 0.08, p_nested: 0.0, need_private_key: true, p_grouped: 1.0, p_outer: 0.0, p_distinct: 0.05, ..base },
             "C16" => Profile { benign_data: true, full_catalogue: true, p_public_table: 1.0, p_synthetic: 0.3, ..base },
-            "C02" => Profile { p_pu_without_root: 0.08, p_extra_select: 0.05, p_join_of_subqueries: 0.05, p_on_or: 0.04, p_unsupported_agg: 0.08, p_cross: 0.04, p_outer_kinds: 0.05, p_multi_dp: 0.04, p_nested_group: 0.03, p_shared_cte: 0.08, p_plain: 0.25, p_synthetic: 0.4, p_public_table: 0.5, p_outer: 0.2, ..base },
+            "C02" => Profile { p_where_fn: 0.1, p_pu_without_root: 0.08, p_extra_select: 0.05, p_join_of_subqueries: 0.05, p_on_or: 0.04, p_unsupported_agg: 0.08, p_cross: 0.04, p_outer_kinds: 0.05, p_multi_dp: 0.04, p_nested_group: 0.03, p_shared_cte: 0.08, p_plain: 0.25, p_synthetic: 0.4, p_public_table: 0.5, p_outer: 0.2, ..base },
             _ => base,
         }
     }
@@ -566,6 +568,21 @@ pub fn generate(seed: u64, run: u64, prop: &str) -> Generated {
         }
         tags.push("ref_key".into());
     }
+    // a denormalised copy of a key on the child table (own stream): items carries a `user_id` of its
+    // own (who handled the line, say) next to the declared path items -> orders -> users; its
+    // values are users too, but not the ones the path leads to
+    let mut rdn = Rng::stream(seed, run, "denormalised_key");
+    if depth >= 3 && !direct_orders && rdn.chance(0.12) && !users.rows.is_empty() {
+        let idc = users.col_index("id").unwrap();
+        let ids: Vec<i64> = users.rows.iter().filter_map(|r| match &r[idc] { Cell::Int(i) => Some(*i), _ => None }).collect();
+        if !ids.is_empty() {
+            items.cols.push(ColSpec { name: "user_id".into(), ty: ColType::IntRange { lo: 0, hi: id_hi }, optional: false, unique: false });
+            for r in items.rows.iter_mut() {
+                r.push(Cell::Int(*rdn.pick(&ids)));
+            }
+            tags.push("denormalised_key".into());
+        }
+    }
     // singleton keys (C04): make sure some private key values are held by exactly one unit
     if !benign && rf.chance(0.5) {
         faults.push("singleton_keys".into());
@@ -890,6 +907,22 @@ pub fn generate(seed: u64, run: u64, prop: &str) -> Generated {
                 f1 = if rg.chance(0.5) { "count" } else { f1 }, v1 = v1, f2 = if rg.chance(0.5) { "count" } else { f2 }, v2 = v2, t = base_t.name, al = a,
                 op = rg.pick(&["UNION", "UNION ALL"])
             );
+            // ... or, grouped by one private key each (own stream): two key releases in one compilation
+            let mut rmk = Rng::stream(seed, run, "multi_dp_keys");
+            let priv_keys: Vec<&(String, ColSpec)> = keyable.iter().cloned().filter(|(q, c)| q.starts_with(&format!("{}.", a)) && public_set_of(&c.ty).is_none() && !c.optional).collect();
+            let sql = if rmk.chance(0.5) && !priv_keys.is_empty() {
+                let (k, _) = priv_keys[rmk.usize(priv_keys.len())];
+                tags.retain(|t| t != "keys:none");
+                tags.push("keys:priv".into());
+                tags.push("multi_dp_keys".into());
+                format!(
+                    "WITH a AS (SELECT {k} AS k, {f1}({v1}) AS v FROM {t} AS {al} GROUP BY {k}), b AS (SELECT {k} AS k, {f2}({v2}) AS v FROM {t} AS {al} GROUP BY {k}) SELECT * FROM a {op} SELECT * FROM b",
+                    k = k, f1 = if rmk.chance(0.5) { "count" } else { f1 }, v1 = v1, f2 = if rmk.chance(0.5) { "count" } else { f2 }, v2 = v2, t = base_t.name, al = a,
+                    op = rmk.pick(&["UNION", "UNION ALL"])
+                )
+            } else {
+                sql
+            };
             tags.push("multi_dp".into());
             let query = QuerySpec { from: vec![], where_: vec![], keys: vec![], aggs: vec![], having: None, outer: None, plain: None, cte: None, raw_sql: None, holders_override: None, inner_where: vec![], outer_group_by: false, extra_select: vec![] };
             let base = Some((a, base_t.name.clone()));
@@ -1060,6 +1093,8 @@ pub fn generate(seed: u64, run: u64, prop: &str) -> Generated {
     // WHERE conjuncts over functions and combinations of columns (own stream): the filter typing
     // has a rule per function, and what it concludes about a column travels to keys and bounds
     let mut rwn = Rng::stream(seed, run, "where_fn");
+    // conjuncts that leave every value of every column possible, whatever they mention
+    let mut non_narrowing: Vec<String> = vec![];
     if rwn.chance(profile.p_where_fn) {
         let rng_of = |c: &ColSpec| -> Option<(f64, f64, bool)> {
             match &c.ty {
@@ -1072,9 +1107,38 @@ pub fn generate(seed: u64, run: u64, prop: &str) -> Generated {
         let lit = |x: f64, is_int: bool| if is_int { format!("{}", x.floor() as i64) } else { format!("{:?}", (x * 8.0).round() / 8.0 + 0.0625) };
         let nums: Vec<&(String, ColSpec)> = numeric.iter().filter(|(q, c)| q != "r.factor" && rng_of(c).map_or(false, |r| r.0.abs().max(r.1.abs()) <= 1.0e6)).cloned().collect();
         let texts: Vec<&(String, ColSpec)> = cols.iter().filter(|(q, c)| !is_id(q) && matches!(c.ty, ColType::TextValues(_))).collect();
+        let free_texts: Vec<&(String, ColSpec)> = cols.iter().filter(|(q, c)| !is_id(q) && matches!(c.ty, ColType::Text)).collect();
+        let bools: Vec<&(String, ColSpec)> = cols.iter().filter(|(q, c)| !is_id(q) && matches!(c.ty, ColType::Bool)).collect();
         let mut used = vec![];
         for _ in 0..(1 + rwn.below(2)) {
-            let kind = rwn.below(10);
+            let kind = rwn.below(14);
+            if kind >= 10 {
+                // a side that says nothing about any column (LIKE, IS NULL, a boolean column, a
+                // list on another column) next to one that does: under OR the narrowing side must
+                // not survive alone, under NOT (.. AND ..) the negated side must not either
+                let silent: Vec<String> = {
+                    let mut v = vec![];
+                    for (qt, _) in texts.iter().chain(free_texts.iter()) { v.push(format!("{} LIKE 'k%'", qt)); }
+                    for (qb, _) in bools.iter() { v.push(qb.to_string()); }
+                    for (qn, cn) in nums.iter() { if cn.optional { v.push(format!("{} IS NULL", qn)); } }
+                    v
+                };
+                if silent.is_empty() { continue; }
+                let quiet = silent[rwn.usize(silent.len())].clone();
+                // the narrowing side: a list on a free-text column, a value-set column or a number
+                let mut loud: Vec<(String, String)> = vec![];
+                for (qt, _) in free_texts.iter() { loud.push((qt.to_string(), format!("{} IN ('{}', '{}')", qt, TEXT_POOL[rwn.usize(4)], TEXT_POOL[4 + rwn.usize(4)]))); }
+                for (qt, ct) in texts.iter() { if let ColType::TextValues(vs) = &ct.ty { loud.push((qt.to_string(), format!("{} IN ('{}')", qt, rwn.pick(vs)))); } }
+                for (qn, cn) in nums.iter() { let r = rng_of(cn).unwrap(); loud.push((qn.to_string(), format!("{} > {}", qn, lit((r.0 + r.1) / 2.0, r.2)))); }
+                loud.retain(|(q, _)| !quiet.starts_with(q.as_str()));
+                if loud.is_empty() { continue; }
+                let (_, l) = loud[rwn.usize(loud.len())].clone();
+                let w = if kind <= 11 { format!("({} OR {})", l, quiet) } else { format!("NOT ({} AND {})", l, quiet) };
+                non_narrowing.push(w.clone());
+                where_.push(w);
+                used.push(if kind <= 11 { "or_silent_side" } else { "not_and_silent_side" });
+                continue;
+            }
             if kind >= 8 {
                 if texts.is_empty() { continue; }
                 let (qt, ct) = texts[rwn.usize(texts.len())];
@@ -1174,7 +1238,7 @@ pub fn generate(seed: u64, run: u64, prop: &str) -> Generated {
 
     // a WHERE conjunct on a key column may narrow it to a public set in the compiler's reading
     for k in keys.iter_mut() {
-        if !k.expr.starts_with("CASE") && where_.iter().any(|w| w.contains(k.expr.as_str())) {
+        if !k.expr.starts_with("CASE") && where_.iter().any(|w| !non_narrowing.contains(w) && w.contains(k.expr.as_str())) {
             k.ambiguous = true;
         }
         // ... and so may an equality with a column of another table in a join condition
@@ -1204,7 +1268,7 @@ pub fn generate(seed: u64, run: u64, prop: &str) -> Generated {
     // could narrow it to something public)
     for k in keys.iter_mut() {
         if k.public_set.is_none() {
-            let narrowed = where_.iter().any(|w| w.contains(k.expr.as_str()))
+            let narrowed = where_.iter().any(|w| !non_narrowing.contains(w) && w.contains(k.expr.as_str()))
                 || from.iter().any(|f| f.on.as_deref().map_or(false, |on| on.contains(k.expr.as_str())));
             k.ambiguous = narrowed;
         }
@@ -1538,6 +1602,52 @@ pub fn generate(seed: u64, run: u64, prop: &str) -> Generated {
             used.sort();
             used.dedup();
             tags.push(format!("math:{}", used.join("+")));
+        }
+    }
+    // conditional counts and sums (own stream): `sum(CASE WHEN k = v THEN 1 ELSE 0 END)` and its
+    // relatives over a discrete column - the comparison is typed on the declared value set
+    let mut rca = Rng::stream(seed, run, "cond_agg");
+    if rca.chance(profile.p_cond_agg) && query.cte.is_none() {
+        let mut used = vec![];
+        for a in query.aggs.iter_mut() {
+            if !matches!(a.f, AggFn::Sum | AggFn::Avg) || a.distinct || a.arg.contains('(') || a.arg.contains(' ') || !rca.chance(0.8) {
+                continue;
+            }
+            let Some((_, c)) = cols.iter().find(|(q, _)| *q == a.arg) else { continue };
+            let m = match &c.ty {
+                ColType::IntRange { lo, hi } => lo.abs().max(hi.abs()) as f64,
+                ColType::FloatRange { lo, hi } => lo.abs().max(hi.abs()),
+                ColType::IntValues(v) => v.iter().map(|x| x.abs()).max().unwrap_or(1) as f64,
+                _ => continue,
+            };
+            let q = a.arg.clone();
+            let sets: Vec<(String, String, String)> = cols.iter().filter(|(qd, _)| !is_id(qd)).filter_map(|(qd, cd)| match &cd.ty {
+                ColType::IntValues(v) if v.len() >= 2 => Some((qd.clone(), v[rca.usize(v.len())].to_string(), v[rca.usize(v.len())].to_string())),
+                _ => None,
+            }).collect();
+            let others: Vec<(String, String, String)> = cols.iter().filter(|(qd, _)| !is_id(qd) && *qd != q).filter_map(|(qd, cd)| match &cd.ty {
+                ColType::IntRange { lo, hi } if hi - lo >= 1 && hi - lo <= 12 => Some((qd.clone(), lo.to_string(), (lo + 1).to_string())),
+                ColType::TextValues(v) if v.len() >= 2 => Some((qd.clone(), format!("'{}'", v[0]), format!("'{}'", v[v.len() - 1]))),
+                _ => None,
+            }).collect();
+            let disc = if !sets.is_empty() && (others.is_empty() || rca.chance(0.7)) { sets } else { others };
+            if disc.is_empty() { continue; }
+            let (qd, v1, v2) = disc[rca.usize(disc.len())].clone();
+            let (expr, scale, name) = match rca.below(5) {
+                0 => (format!("CASE WHEN {} = {} THEN 1 ELSE 0 END", qd, v1), 1.0, "count_eq"),
+                1 => (format!("CASE WHEN {} = {} THEN {} ELSE 0 END", qd, v2, q), m, "sum_eq"),
+                2 => (format!("CASE WHEN {} <> {} THEN {} ELSE 0 END", qd, v1, q), m, "sum_ne"),
+                3 => (format!("CASE WHEN {} IN ({}, {}) THEN {} ELSE 0 END", qd, v1, v2, q), m, "sum_in"),
+                _ => (format!("CASE WHEN {} = {} THEN {} WHEN {} = {} THEN -{} ELSE 0 END", qd, v1, q, qd, v2, q), m, "sum_two"),
+            };
+            a.arg = expr;
+            a.scale = scale.max(1.0);
+            used.push(name);
+        }
+        if !used.is_empty() {
+            used.sort();
+            used.dedup();
+            tags.push(format!("cond_agg:{}", used.join("+")));
         }
     }
     // one WHERE conjunct on the base table moved into a derived table around it (own stream): two
